@@ -496,6 +496,33 @@ impl Machine {
                 self.hs[dst] = Some(c);
                 out.s("ok");
             }
+            (b"clonefrom", 3) => {
+                // `dst.clone_from(&src)` when both handles hold the same hasher type (otherwise like `clone`)
+                let h = handle!(1);
+                let dst = handle!(2);
+                if h == dst {
+                    out.s(if self.hs[h].is_some() { "ok" } else { "nohandle" });
+                    return;
+                }
+                let Some(s) = self.hs[h].clone() else {
+                    out.s("nohandle");
+                    return;
+                };
+                match (&mut self.hs[dst], &s) {
+                    (Some(AnyHasher::Portable(d)), AnyHasher::Portable(x)) => d.clone_from(x),
+                    (Some(AnyHasher::Auto(d)), AnyHasher::Auto(x)) => d.clone_from(x),
+                    #[cfg(target_arch = "x86_64")]
+                    (Some(AnyHasher::Sse(d)), AnyHasher::Sse(x)) => d.clone_from(x),
+                    #[cfg(target_arch = "x86_64")]
+                    (Some(AnyHasher::Avx(d)), AnyHasher::Avx(x)) => d.clone_from(x),
+                    #[cfg(target_arch = "aarch64")]
+                    (Some(AnyHasher::Neon(d)), AnyHasher::Neon(x)) => d.clone_from(x),
+                    #[cfg(all(target_family = "wasm", target_feature = "simd128"))]
+                    (Some(AnyHasher::Wasm(d)), AnyHasher::Wasm(x)) => d.clone_from(x),
+                    (slot, _) => *slot = Some(s.clone()),
+                }
+                out.s("ok");
+            }
             (b"fin", 3) => {
                 let h = handle!(1);
                 let Some(s) = self.hs[h].take() else {
